@@ -25,7 +25,10 @@ CLAIMED.update({
    text="Theorems (Props/C03.lean) about Ctl.step/Ctl.run, the model of the main loop's control skeleton, for every oracle stream of search/poll outcomes: budget_inv, total_calls_le, "
         "poll_iters_le, no_idle_iteration, terminates (explicit bound (nTry+1)(maxIter+budget)+1 by a lexicographic ranking function), msg_sound, fc_mono; hypotheses on option defaults re-proved "
         "from the regenerated Generated/Defaults.lean. Correspondence: every loop iteration of traced real runs is replayed through Ctl.step (counters, mesh exponents, termination, message compared); "
-        "budget/count/message/idle predicates evaluated on the observed runs. Termination of the implementation additionally needs each oracle call to return (outside the model).",
+        "budget/count/message/idle predicates evaluated on the observed runs. Termination of the implementation additionally needs each oracle call to return (outside the model). "
+        "End to end (Props/C03Opt.lean, model Optimize.lean of ONE WHOLE CALL of optimize(): initial phase + loop + final re-sampling): init_inv (the state in which the loop is entered satisfies the composed "
+        "invariant), optimize_budget (the COMPLETE call sequence is no longer than max_fun_evals whenever the initial phase fits, func_count is its length), optimize_calls_ok, optimize_terminates, "
+        "sobolCount_le / fits_of_room; every pool run is replayed through whole.replay and its complete sequence of target calls compared.",
    design="5 / C03", technique="Lean 4 termination/invariant proofs over a loop-control model + trace-refinement correspondence"),
  "C13": dict(
    text="Theorems (Props/C13.lean) about Ctl.mstep: poll_success_doubles, poll_failure_halves_or_quarters (exact quartering condition), msi_changes_only_in_poll, running_best_good_iff, "
@@ -64,12 +67,16 @@ CLAIMED.update({
  "C04": dict(
    text="Theorems (Props/C04.lean) about Inc.step for every sequence of evaluated points and returned values (any target incl. plateaus/ties, any candidate generation): inc_init, inc_search, inc_poll, inc_reachable "
         "(the incumbent is an evaluated pair and a minimum of everything evaluated), result_truthful, hist_fval_antitone, never_worse_than_start (per-run clause of C06); default-policy hypotheses re-proved from the regenerated options. "
-        "Correspondence: every search/poll step of deterministic traced runs replayed through Inc.step; result clauses evaluated against the target wrapper's own (x, y) call log.",
+        "Correspondence: every search/poll step of deterministic traced runs replayed through Inc.step; result clauses evaluated against the target wrapper's own (x, y) call log. "
+        "Composed models: DetRun (C04Run.lean: det_run_spec, det_terminates, ...) and the whole-call model Optimize.lean under a deterministic oracle (C04Opt.lean: det_optimize_best - the returned fval is the value "
+        "observed at the returned point and NO evaluation of the run, initial design included, is lower; nothing is re-sampled).",
    design="5 / C04", technique="Lean 4 invariant by induction over evaluations + trace-refinement correspondence"),
  "C05": dict(
    text="Theorems (Props/C05.lean): final_point_is_iterate, argminFrom1_spec (first minimiser of the quantile values over iterates 1..), fval_is_mean, yvec_single_supplemented, yvec_several, sqDev_nonneg, noise_detected_iff, "
         "identical_values_not_noisy; with C19's run_pinv the returned point is a point evaluated earlier. Correspondence: incumbent/history/final-estimate bookkeeping of every traced run replayed through Noisy.iterStep / finalChoice / yvalVec "
-        "with the run's oracle values; clauses (last calls at returned x, yval_vec, mean, SEM, ysd_vec, target_type, noise detection rule) evaluated on the run's call log. Budget interplay is C03's total_calls_le.",
+        "with the run's oracle values; clauses (last calls at returned x, yval_vec, mean, SEM, ysd_vec, target_type, noise detection rule) evaluated on the run's call log. Budget interplay is C03's total_calls_le. "
+        "End to end on the whole-call model (C05Opt.lean): final_calls_at_returned_x (the call sequence ends with exactly nfsEff unrecorded calls at the returned point), returned_x_evaluated, yvec_spec, "
+        "deterministic_untouched, noisy_detected; replayed on every pool run through whole.replay (complete call sequence, yval_vec, func_count).",
    design="5 / C05", technique="Lean 4 theorems over the final-selection/estimate model + trace-refinement correspondence"),
  "C19": dict(
    text="Run level (Props/C19.lean): for every sequence of candidates, GP estimates, re-estimated history values and final quantile values: iterStep_pinv / run_pinv (u = u_best at iteration boundaries; the incumbent pair and every "
